@@ -48,6 +48,18 @@ def container(kind, cores):
     return set(cores)
 
 
+def spell(how, value):
+    """A truth value as a bool, an int, a numpy bool or (false only) None."""
+    if how == "int":
+        return 1 if value else 0
+    if how == "numpy":
+        import numpy
+        return numpy.bool_(bool(value))
+    if how == "none" and not value:
+        return None
+    return value
+
+
 def run_case(c):
     machine = sim.SimMachine(c["machine"])
     net = sim.Net(machine)
@@ -87,6 +99,8 @@ def run_case(c):
             for k in ("app_id", "wait", "n_tries", "use_count"):
                 if call.get(k) is not None:
                     kwargs[k] = call[k]
+            if "wait" in kwargs:                               # the same truth value, spelt differently
+                kwargs["wait"] = spell(call.get("wait_as"), kwargs["wait"])
             n0, f0 = len(machine.log), len(machine.fill_log)
             fn = mc.flood_fill_aplx if call.get("fn") == "fill" else mc.load_application
             if call.get("fn") == "fill":
